@@ -1,10 +1,16 @@
 // C16 harness: one creator of <dir>/dest per thread, driven step by step over stdin/stdout.
-//   h_fc child <dir> <id:nchunks:ok|err> [<id:nchunks:ok|err> ...]
-// Every creator runs create_file_cleanly (the real wholesym/src/file_creation.rs, included by path) on its own thread.
+//   h_fc child <dir> <id:nchunks:ok|err[:gate]> [<id:nchunks:ok|err[:gate]> ...]
+// Every creator runs create_file_cleanly (the real wholesym/src/file_creation.rs, included by path) on its own thread, polled by hand inside
+// its own tokio runtime (one blocking-pool thread).
 // After each protocol step (the cfg(samply_verif) hook) and after each chunk written by the write function the creator
-// prints "<id> at <step>" and blocks until the line "<id> go" arrives on stdin ("<id> cancel" while inside the write
-// function makes the write function's future get dropped... not available: see below).  When create_file_cleanly returns
-// it prints "<id> result written|existing|failed:<error variant>".
+// prints "<id> at <step>" and blocks until the line "<id> go" or "<id> cancel" arrives on stdin.  "cancel" asks for the CANCELLATION of the
+// creator's future: the future is dropped at the next point where it returns Pending (an .await that is not ready: waiting for the lock,
+// inside the write function - which yields after a chunk once cancellation was asked for -, or any other await the routine performs);
+// synchronous code up to that point still runs and reports its steps.  A creator waiting for the lock can be cancelled too.
+// It then prints "<id> result cancelled"; its runtime stays alive (as the runtime of a long-lived process would).
+// When create_file_cleanly returns it prints "<id> result written|existing|failed:<error variant>".
+// ":gate" occupies the single blocking-pool thread of that creator's runtime until "<id> release" arrives: work the routine hands to the
+// blocking pool is queued behind it (a busy pool).
 // A creator blocked in flock prints nothing until it has the lock.  The parent kills the process (SIGKILL) to model
 // abrupt termination; all creators of that process die together.
 #![allow(dead_code)]
@@ -12,6 +18,7 @@
 mod file_creation;
 
 use std::collections::HashMap;
+use std::future::Future;
 use std::io::{BufRead, Write};
 use std::path::PathBuf;
 use std::sync::mpsc::{channel, Receiver, Sender};
@@ -19,7 +26,10 @@ use std::sync::{Arc, Mutex};
 
 thread_local! {
     static ME: std::cell::RefCell<Option<(u32, Arc<Mutex<Receiver<String>>>)>> = const { std::cell::RefCell::new(None) };
+    static CANCEL: std::cell::Cell<bool> = const { std::cell::Cell::new(false) };
 }
+
+static GATES: Mutex<Option<HashMap<u32, Sender<()>>>> = Mutex::new(None);
 
 fn say(line: &str) {
     let out = std::io::stdout();
@@ -32,8 +42,12 @@ fn pause(step: &str) {
     ME.with(|m| {
         if let Some((id, rx)) = &*m.borrow() {
             say(&format!("{} at {}", id, step));
-            // block until the parent says go
-            let _ = rx.lock().unwrap().recv();
+            // block until the parent says go (or asks for cancellation, which takes effect at the next await that is not ready)
+            if let Ok(cmd) = rx.lock().unwrap().recv() {
+                if cmd == "cancel" {
+                    CANCEL.with(|c| c.set(true));
+                }
+            }
         }
     });
 }
@@ -47,19 +61,31 @@ impl std::fmt::Display for WErr {
 }
 impl std::error::Error for WErr {}
 
-fn creator(dir: PathBuf, id: u32, nchunks: u32, ok: bool, rx: Receiver<String>) {
+fn creator(dir: PathBuf, id: u32, nchunks: u32, ok: bool, gate: bool, rx: Receiver<String>) {
     let rx = Arc::new(Mutex::new(rx));
     ME.with(|m| *m.borrow_mut() = Some((id, rx.clone())));
     pause("start");
     let dest = dir.join("dest");
-    let rt = tokio::runtime::Builder::new_current_thread().build().unwrap();
-    let res = rt.block_on(file_creation::create_file_cleanly(
+    let rt = tokio::runtime::Builder::new_current_thread().max_blocking_threads(1).build().unwrap();
+    if gate {
+        let (gtx, grx) = channel::<()>();
+        GATES.lock().unwrap().get_or_insert_with(HashMap::new).insert(id, gtx);
+        rt.spawn_blocking(move || {
+            let _ = grx.recv();
+        });
+    }
+    let _guard = rt.enter();
+    let mut fut = Box::pin(file_creation::create_file_cleanly(
         &dest,
         |mut file: std::fs::File| async move {
             for j in 0..nchunks {
                 let chunk = format!("w{:03}j{:04}\n", id, j);
                 file.write_all(chunk.as_bytes()).map_err(|_| WErr)?;
                 pause("chunk");
+                if CANCEL.with(|c| c.get()) {
+                    // cancellation was asked for: yield for good (the file is still open, as in a write function waiting for more data)
+                    std::future::pending::<()>().await;
+                }
             }
             drop(file);
             if ok {
@@ -70,6 +96,31 @@ fn creator(dir: PathBuf, id: u32, nchunks: u32, ok: bool, rx: Receiver<String>) 
         },
         || async { Ok::<_, WErr>("existing") },
     ));
+    let waker = futures::task::noop_waker();
+    let mut cx = std::task::Context::from_waker(&waker);
+    let res = loop {
+        match fut.as_mut().poll(&mut cx) {
+            std::task::Poll::Ready(r) => break Some(r),
+            std::task::Poll::Pending => {
+                if CANCEL.with(|c| c.get()) {
+                    break None;
+                }
+                // not paused in a hook (waiting for the lock, or for the blocking pool): the only command that makes sense is "cancel"
+                if let Ok(cmd) = rx.lock().unwrap().recv_timeout(std::time::Duration::from_millis(2)) {
+                    if cmd == "cancel" {
+                        break None;
+                    }
+                }
+            }
+        }
+    };
+    drop(fut);
+    let Some(res) = res else {
+        say(&format!("{} result cancelled", id));
+        // keep the runtime (and its blocking pool) alive until the parent closes stdin
+        while rx.lock().unwrap().recv().is_ok() {}
+        return;
+    };
     let r = match res {
         Ok(v) => v.to_string(),
         Err(e) => {
@@ -102,10 +153,11 @@ fn main() {
         let id: u32 = p[0].parse().unwrap();
         let n: u32 = p[1].parse().unwrap();
         let ok = p[2] == "ok";
+        let gate = p.get(3) == Some(&"gate");
         let (tx, rx) = channel();
         txs.insert(id, tx);
         let d = dir.clone();
-        handles.push(std::thread::spawn(move || creator(d, id, n, ok, rx)));
+        handles.push(std::thread::spawn(move || creator(d, id, n, ok, gate, rx)));
     }
     // dispatcher: "<id> go"
     let stdin = std::io::stdin();
@@ -120,11 +172,18 @@ fn main() {
             None => continue,
         };
         let cmd = it.next().unwrap_or("go").to_string();
+        if cmd == "release" {
+            if let Some(g) = GATES.lock().unwrap().as_mut().and_then(|m| m.remove(&id)) {
+                let _ = g.send(());
+            }
+            continue;
+        }
         if let Some(tx) = txs.get(&id) {
             let _ = tx.send(cmd);
         }
     }
     // stdin closed: let every creator run to completion
+    *GATES.lock().unwrap() = None;
     drop(txs);
     for h in handles {
         let _ = h.join();
